@@ -540,7 +540,19 @@ class Plucker(SMUserList):
         equivalent even if their coordinate vectors are different.
         """
         l1 = self
-        return abs( 1 - np.dot(base.unitvec(l1.vec), base.unitvec(l2.vec))) < 10*_eps
+        # compare direction and moment, both scaled to a unit direction.  (The
+        # angle between the two 6-vectors is a poor measure: the cosine differs
+        # from 1 by the square of the angle, and the moment dominates the
+        # 6-vector for a line far from the origin, so that lines a few percent
+        # apart at a distance of 1000 compared equal.)
+        tol = 1e-9
+        n1, n2 = np.linalg.norm(l1.w), np.linalg.norm(l2.w)
+        if n1 == 0 or n2 == 0:
+            # no direction: not a line in space, equal only to an identical twin
+            return bool(n1 == n2 and np.array_equal(l1.v, l2.v))
+        v1, v2 = l1.v / n1, l2.v / n2
+        return bool(np.linalg.norm(l1.w / n1 - l2.w / n2) <= tol
+            and np.linalg.norm(v1 - v2) <= tol * max(1, np.linalg.norm(v1), np.linalg.norm(v2)))
     
     def __ne__(self, l2):  # pylint: disable=no-self-argument
         """
